@@ -11,10 +11,9 @@ import (
 // zzSymInt1 builds an Int from a symbolic magnitude < 2^bitsN (bitsN <= 64) and sign
 // through MakeBigInt; returns the Int, sign and magnitude.
 func zzSymInt1(name string, bitsN int) (Int, bool, uint64) {
-	i, w := zzSymInt(name, bitsN)
-	neg := w.hi < 0
-	mag := zzIteU64(neg, -w.lo, w.lo)
-	return i, neg, mag
+	i, neg, lo, _, _ := zzSymIntParts(name, bitsN)
+	// a zero magnitude has no sign
+	return i, zzAnd(neg, lo != 0), lo
 }
 
 // zzWFromSignMag returns the 128-bit value ±(hi:lo).
@@ -36,9 +35,9 @@ var zzC10Consts = []int64{1, -1, 2, 3, -7, 10, 1<<31 - 1, 1 << 31, -(1 << 31), 1
 //verif:config generic posix64 posix64-nommap
 //verif:configq generic posix64
 func zzH10_mul() {
-	B := zzParam("mul_bits", 33, 40)
+	B := zzParam("mul_bits", 40, 62)
 	x, xn, xm := zzSymInt1("x", B)
-	nc := zzParam("mul_consts", 7, 10)
+	nc := zzParam("mul_consts", 9, len(zzC10Consts))
 	yv := zzC10Consts[zzChoice("y", nc)]
 	y := MakeInt64(yv)
 	yn := yv < 0
